@@ -623,23 +623,28 @@ def tangent_curve(ctx, p, mult, rational, dim):
 
 
 def _tan_surface_shapes(tier):
-    out = [dict(pu=1, pv=1, mu=[], mv=[], rational=False), dict(pu=2, pv=1, mu=[1], mv=[], rational=False),
-           dict(pu=2, pv=2, mu=[], mv=[1], rational=False), dict(pu=1, pv=1, mu=[], mv=[], rational=True)]
+    # the solver has to find a model of the path once per sqrt atom (nonlinear): rational / larger shapes carry the
+    # symbols in knots, parameters and weights and use a constant control net in general position
+    out = [dict(pu=1, pv=1, mu=[], mv=[], rational=False, symnet=True),
+           dict(pu=2, pv=1, mu=[1], mv=[], rational=False, symnet=False),
+           dict(pu=1, pv=1, mu=[], mv=[], rational=True, symnet=False)]
     if tier == 'thorough':
-        out += [dict(pu=2, pv=2, mu=[1], mv=[1], rational=False), dict(pu=3, pv=2, mu=[], mv=[1], rational=False),
-                dict(pu=2, pv=1, mu=[], mv=[], rational=True)]
+        out += [dict(pu=2, pv=1, mu=[1], mv=[], rational=False, symnet=True),
+                dict(pu=2, pv=2, mu=[], mv=[1], rational=False, symnet=False),
+                dict(pu=2, pv=2, mu=[1], mv=[1], rational=False, symnet=False),
+                dict(pu=3, pv=2, mu=[], mv=[1], rational=False, symnet=False),
+                dict(pu=1, pv=1, mu=[], mv=[], rational=True, symnet=True),
+                dict(pu=2, pv=1, mu=[], mv=[], rational=True, symnet=False)]
     return out
 
 
-@scenario('C02', fns=['operations.tangent', 'operations.normal', '_operations.tangent_surface_single',
-                      '_operations.tangent_surface_single_list', '_operations.normal_surface_single',
-                      '_operations.normal_surface_single_list', 'linalg.vector_cross', 'linalg.vector_normalize',
-                      'linalg.vector_magnitude', 'BSpline.Surface.derivatives'],
+@scenario('C02', fns=['operations.tangent', '_operations.tangent_surface_single',
+                      '_operations.tangent_surface_single_list', 'linalg.vector_normalize', 'linalg.vector_magnitude',
+                      'BSpline.Surface.derivatives', 'NURBS.Surface.derivatives'],
           quick=lambda: _tan_surface_shapes('quick'), thorough=lambda: _tan_surface_shapes('thorough'))
-def tangent_normal_surface(ctx, pu, pv, mu, mv, rational, symnet=True):
-    """ensures tangent(normalize=False) == (S, D_u S, D_v S); normal(normalize=False) == D_u S x D_v S, orthogonal to both
-    tangents; requires D_u S, D_v S, D_u S x D_v S != 0: normalised tangents and normal have unit length, keep their
-    direction, and the unit normal is orthogonal to both tangents."""
+def tangent_surface(ctx, pu, pv, mu, mv, rational, symnet):
+    """ensures tangent(normalize=False) == (S, D_u S, D_v S) (single pair and list form);
+    requires D_u S != 0 and D_v S != 0: the normalised tangents have unit length and equal D S / |D S|."""
     U, V, su, sv, u, v, P, W, Pw, srf = _surface_setup(ctx, pu, pv, mu, mv, rational, symnet)
     ops = ctx.geomdl('operations')
     want = surface_oracle(ctx, pu, pv, U, V, Pw, su, sv, u, v, rational, 1)
@@ -649,28 +654,41 @@ def tangent_normal_surface(ctx, pu, pv, mu, mv, rational, symnet=True):
     _eq_vec(ctx, 'raw.tangent_v=D01', tv, want[(0, 1)])
     lst = ops.tangent(srf, [[u, v]], normalize=False)
     ctx.check_true('list.len', len(lst) == 1 and len(lst[0]) == 3)
+    _eq_vec(ctx, 'list[0].point', lst[0][0], want[(0, 0)])
     _eq_vec(ctx, 'list[0].tangent_u=D10', lst[0][1], want[(1, 0)])
     _eq_vec(ctx, 'list[0].tangent_v=D01', lst[0][2], want[(0, 1)])
-    npt, nrm = ops.normal(srf, [u, v], normalize=False)
-    _eq_vec(ctx, 'raw.normal.point', npt, want[(0, 0)])
-    _eq_vec(ctx, 'raw.normal=D10xD01', nrm, _cross(want[(1, 0)], want[(0, 1)]))
-    _eq(ctx, 'raw.normal.orthogonal_to_tangent_u', _dot(nrm, tu), 0)
-    _eq(ctx, 'raw.normal.orthogonal_to_tangent_v', _dot(nrm, tv), 0)
-    nl = ops.normal(srf, [[u, v]], normalize=False)
-    ctx.check_true('normal.list.len', len(nl) == 1 and len(nl[0]) == 2)
-    _eq_vec(ctx, 'normal.list[0]=D10xD01', nl[0][1], _cross(want[(1, 0)], want[(0, 1)]))
-    # normalised queries: regular point
-    _regular(ctx, nrm)          # implies both tangents are non-zero
     _regular(ctx, tu)
     _regular(ctx, tv)
     pt1, utu, utv = ops.tangent(srf, [u, v])
     _eq_vec(ctx, 'unit.point', pt1, want[(0, 0)])
     _unit_checks(ctx, 'unit.tangent_u', utu, tu)
     _unit_checks(ctx, 'unit.tangent_v', utv, tv)
+
+
+@scenario('C02', fns=['operations.normal', '_operations.normal_surface_single',
+                      '_operations.normal_surface_single_list', 'linalg.vector_cross', 'linalg.vector_normalize',
+                      'linalg.vector_magnitude', 'BSpline.Surface.derivatives', 'NURBS.Surface.derivatives'],
+          quick=lambda: _tan_surface_shapes('quick'), thorough=lambda: _tan_surface_shapes('thorough'))
+def normal_surface(ctx, pu, pv, mu, mv, rational, symnet):
+    """ensures normal(normalize=False) == D_u S x D_v S and is orthogonal to both tangents (single pair and list form);
+    requires D_u S x D_v S != 0: the normalised normal has unit length, keeps the direction and is orthogonal to both
+    tangents D_u S, D_v S."""
+    U, V, su, sv, u, v, P, W, Pw, srf = _surface_setup(ctx, pu, pv, mu, mv, rational, symnet)
+    ops = ctx.geomdl('operations')
+    want = surface_oracle(ctx, pu, pv, U, V, Pw, su, sv, u, v, rational, 1)
+    tu, tv = want[(1, 0)], want[(0, 1)]
+    npt, nrm = ops.normal(srf, [u, v], normalize=False)
+    _eq_vec(ctx, 'raw.point', npt, want[(0, 0)])
+    _eq_vec(ctx, 'raw.normal=D10xD01', nrm, _cross(tu, tv))
+    _eq(ctx, 'raw.normal.orthogonal_to_tangent_u', _dot(nrm, tu), 0)
+    _eq(ctx, 'raw.normal.orthogonal_to_tangent_v', _dot(nrm, tv), 0)
+    nl = ops.normal(srf, [[u, v]], normalize=False)
+    ctx.check_true('list.len', len(nl) == 1 and len(nl[0]) == 2)
+    _eq_vec(ctx, 'list[0].point', nl[0][0], want[(0, 0)])
+    _eq_vec(ctx, 'list[0].normal=D10xD01', nl[0][1], _cross(tu, tv))
+    _regular(ctx, nrm)
     npt1, un = ops.normal(srf, [u, v])
-    _eq_vec(ctx, 'unit.normal.point', npt1, want[(0, 0)])
+    _eq_vec(ctx, 'unit.point', npt1, want[(0, 0)])
     _unit_checks(ctx, 'unit.normal', un, nrm)
     _eq(ctx, 'unit.normal.orthogonal_to_tangent_u', _dot(un, tu), 0)
     _eq(ctx, 'unit.normal.orthogonal_to_tangent_v', _dot(un, tv), 0)
-    _eq(ctx, 'unit.normal.orthogonal_to_unit_tangent_u', _dot(un, utu), 0)
-    _eq(ctx, 'unit.normal.orthogonal_to_unit_tangent_v', _dot(un, utv), 0)
